@@ -129,6 +129,7 @@ type ScriptDisp struct {
 	Name string
 	Desc string
 	Log  *EvLog
+	Hook func(name string) // step {op: hook, name: ...}: lets a history act from inside a handler (e.g. call Shutdown)
 }
 
 func (d *ScriptDisp) VarlinkGetName() string        { return d.Name }
@@ -212,6 +213,11 @@ func (d *ScriptDisp) VarlinkDispatch(ctx context.Context, c varlink.Call, method
 			default:
 				err = c.ReplyInvalidParameter(ctx, st.Arg)
 			}
+		case "hook":
+			if d.Hook != nil {
+				d.Hook(st.Name)
+			}
+			continue
 		case "yield":
 			for k := 0; k < st.N; k++ {
 				if k%4 == 3 {
